@@ -1,9 +1,30 @@
 PIPEFIX = ["engine/umem_count.c", "engine/pipefix.c", "engine/fake_upump.c", "engine/heapcount.c"]
 QMODS = lib("upipe-modules", only=["upipe_queue_sink.c", "upipe_queue_source.c", "upipe_queue.c", "upipe_transfer.c", "upipe_worker.c"])
 TARGET = dict(
-    rule=("TODO"),
-    assumptions=[],
-    execs=[dict(name="queue", harness="harness/C06_queue.c", repo=LIBUPIPE + QMODS, engine=PIPEFIX, share=0.5)],
-    quick=dict(cases=20000, budget=35), thorough=dict(cases=400000, budget=420),
+    rule=("tape-decoded history over one of five topologies -- 1 or 2 queue sinks -> queue source -> far sink; worker linear / worker sink / worker source "
+          "(xfer manager with or without mutex, remote loop attached before or after the allocation, upump-manager probe frozen during the allocation, 1-2 mock "
+          "remote pipes that record every entry and throw transferable events) -- with queue lengths 1-4 (biased), 5-255, 300; the two logical threads are two "
+          "harness-owned event loops in one OS thread, and the history interleaves application calls (input directly or from a source pump, set_flow_def, flush, "
+          "set_output(pseudo)/NULL, attach_upump_mgr, set_max_length, forwarded control under freeze, release of any handle) with SINGLE pump callbacks of either "
+          "loop; in addition an operation can be preempted at its n-th shared-memory access (UPIPE_VERIF hook: atomics, ring elements, event descriptors) by whole "
+          "callbacks of the other loop; the tail releases everything and runs both loops dry. "
+          "non-trivial = more buffers in flight than the queue holds AND one of: flush during a stall, flow definition change in mid-stream, release with undelivered "
+          "buffers; distinct by hash of the decoded history"),
+    assumptions=["two event loops stepped by the harness stand for the two threads: schedules at pump-callback granularity plus preemption at the hooked shared accesses; "
+                 "finer interleavings inside callbacks and weak-memory effects are not generated",
+                 "fake event loop and virtual event descriptors (engine/fake_upump.c), fake mutex recording freeze/thaw, recording probes with a side rule per pipe",
+                 "named exclusion last-message-handover: no preemption while upipe_xfer_mgr_detach / upipe_qsrc_no_ref / upipe_xfer_probe_free is on the stack "
+                 "(open finding, function names through the ASan symbolizer; if no symbolizer is available preemption inside calls is disabled altogether)",
+                 "lib/upipe-pthread (real threads) is not exercised: uprobe_pthread_upump_mgr and upipe_pthread_transfer need OS threads, see DESIGN.md section 8"],
+    execs=[dict(name="queue", harness="harness/C06_queue.c", repo=LIBUPIPE + QMODS, engine=PIPEFIX, share=1.0)],
+    quick=dict(cases=20000, budget=35, floor=2000), thorough=dict(cases=400000, budget=420, floor=20000),
 )
-META = dict(technique="TODO", text="TODO", design_ref="DESIGN.md section 6, C06", note="TODO")
+META = dict(
+    technique="stateful property-based testing with an owned schedule (rapidcheck tapes -> C executor; two harness-stepped event loops as the two threads, preemption at hooked shared accesses) against a sequence model of what was sent, under ASan",
+    text="Generated histories over queue sink/source and worker (linear, sink, source) pipelines; the schedule of the two threads is part of the generated case. Oracle: model of every buffer sent (per producer: "
+         "exactly once, in order, payload intact, under the flow definition in force when it was sent, nothing after a flush but what was sent after it), SOURCE_END only after the last buffer of a released producer and "
+         "once per producer, a state where no pump of either loop can fire while buffers are undelivered is a stall (full queue must hold and later deliver), remote pipes are entered only while loop B runs or under "
+         "freeze, events of application-side pipes and forwarded events arrive in thread A with their arguments, ASan for accesses to freed queues/pipes. Sampling; deterministic (no OS thread, no clock).",
+    design_ref="DESIGN.md section 6, C06",
+    note="schedules at callback granularity plus preemption points at the UPIPE_VERIF hooks; real-thread execution (lib/upipe-pthread) and TSan are not part of this check. Open finding last-message-handover is excluded by construction and replayed with the exclusion off (KNOWN-FINDING lines). The same executor compiled with -DQUEUE_PROP=1 serves C01 (end-of-case audit).",
+)
